@@ -30,7 +30,7 @@ Post(k) == CASE k = "hs" -> "hs" [] k = "create" -> "created" [] k = "auth" -> "
 Pkts == [k : {"hs"}, cls : BodyCls, caps : CapsVals]
    \cup [k : {"create"}, cls : BodyCls, cookieGood : BOOLEAN]
    \cup [k : {"auth"}, cls : BodyCls]
-   \cup [k : {"chan"}, cls : BodyCls, hostAllowed : {"yes", "no", "free"}]
+   \cup [k : {"chan"}, cls : BodyCls, hostAllowed : {"yes", "no", "free"}, reach : BOOLEAN]   \* reach: something listens at the requested address (environment)
    \cup [k : {"data", "keepalive", "close", "other"}, cls : {"valid"}]
 
 RespCls == {"none", "ok", "mismatch", "cookie", "rap", "err"}
@@ -98,6 +98,7 @@ G_C03_MalformedNotDialled(c, ph, nd, p, o) ==
 \* C16: status 0 iff accepted - a channel response is success iff the host was connected
 G_C16_ChannelTruth(c, ph, nd, p, o) ==
   /\ o.conn => o.dial
+  /\ (p.k = "chan" /\ o.dial) => (o.conn <=> p.reach)
   /\ p.k = "chan" => ((o.resp = "ok") <=> o.conn)
   /\ (o.dial /\ ~o.conn) => o.end
 
@@ -110,6 +111,9 @@ G_C06_KeepaliveHarmless(c, ph, nd, p, o) ==
 \* C01/C11: close on an open channel is answered and ends the tunnel
 G_C11_CloseAnswered(c, ph, nd, p, o) == (p.k = "close" /\ ph = "opened") => (o.resp = "ok" /\ o.end)
 
+\* C16: status 0 means the step was accepted - the tunnel goes on (only an answered close ends it)
+G_C16_AcceptedStepContinues(c, ph, nd, p, o) == (o.resp = "ok" /\ p.k # "close") => ~o.end
+
 \* pinned codes are used only for their own condition (C16)
 G_C16_CodesTruthful(c, ph, nd, p, o) ==
   /\ o.resp = "mismatch" => p.k = "hs"
@@ -121,7 +125,7 @@ GuardNames == {"G_C01_SuccessInOrder", "G_C01_DialGate", "G_C01_FwdGate", "G_C01
   "G_C01_ErrorEnds", "G_C01_SilentAfterEnd", "G_C01_NoReplyToData", "G_C17_MatchIff", "G_C02_CookieIff",
   "G_C16_CreateAccepted", "G_C16_AuthAccepted", "G_C03_DialIffAllowed", "G_C03_MalformedNotDialled",
   "G_C16_ChannelTruth", "G_C06_DataForwarded", "G_C06_KeepaliveHarmless", "G_C11_CloseAnswered",
-  "G_C16_CodesTruthful"}
+  "G_C16_CodesTruthful", "G_C16_AcceptedStepContinues"}
 
 \* Off: guards switched off (used only by the guard-necessity self-test)
 CONSTANT Off
@@ -146,6 +150,7 @@ Holds(g, c, ph, nd, p, o) ==
        [] g = "G_C06_KeepaliveHarmless"   -> G_C06_KeepaliveHarmless(c, ph, nd, p, o)
        [] g = "G_C11_CloseAnswered"       -> G_C11_CloseAnswered(c, ph, nd, p, o)
        [] g = "G_C16_CodesTruthful"       -> G_C16_CodesTruthful(c, ph, nd, p, o)
+       [] g = "G_C16_AcceptedStepContinues" -> G_C16_AcceptedStepContinues(c, ph, nd, p, o)
 
 Violated(c, ph, nd, p, o) == {g \in GuardNames : ~Holds(g, c, ph, nd, p, o)}
 Reactions(c, ph, nd, p)   == {o \in Outcomes : \A g \in GuardNames : Holds(g, c, ph, nd, p, o)}
